@@ -254,9 +254,33 @@ def run_I2(chk, rule="I2"):
     readers = trans_readers(prog)
     for f in functions(prog):
         calls = []
+        b0 = A.local_bindings(f.node)
         for c in _replace_calls(f.node):
             tr = A.kwarg(c, "trans")
             if tr is None:
+                # a result whose leg structure is rebuilt from scratch (mfs/hfs reset to the defaults, or a struct constructed by
+                # _struct(...) with its own signature) has another number / numbering of native legs: the pending permutation of the
+                # operand cannot be inherited
+                kws0 = {k.arg: k.value for k in c.keywords}
+                reset = [k for k in ("mfs", "hfs") if k in kws0 and isinstance(kws0[k], ast.Constant) and kws0[k].value is None]
+                sv = kws0.get("struct")
+                fresh = False
+                def own_signature(v):
+                    """_struct(...) whose signature is not simply that of an existing tensor's native legs"""
+                    if not (isinstance(v, ast.Call) and A.call_name(v) == "_struct"):
+                        return False
+                    sk = A.kwarg(v, "s")
+                    return not (sk is not None and A.text(sk).endswith(".struct.s"))
+                if isinstance(sv, ast.Name):
+                    dv = [v for st, v, k in b0.get(sv.id, []) if k == "assign" and v is not None]
+                    fresh = bool(dv) and all(own_signature(v) for v in dv)
+                elif sv is not None:
+                    fresh = own_signature(sv)
+                if reset or fresh:
+                    chk.bad(rule, (f, c), c, f"{f.short}(): the result gets a leg structure built from scratch ({'reset ' + '/'.join(reset) if reset else 'struct from _struct(...)'}) "
+                            f"but inherits `trans` of the operand: the permutation has one entry per native leg of the *operand*; with another number "
+                            f"of legs (e.g. meta-fused legs merged by to_nonsymmetric(native=False)) the result is ill-formed and the next "
+                            f"consume_transpose()/to_numpy() fails", {"reset": reset, "fresh_struct": fresh})
                 continue
             if (isinstance(tr, ast.Constant) and tr.value is None) or A.text(tr) in ("no_trans",):
                 calls.append((c, tr))
@@ -322,6 +346,8 @@ def run_I2(chk, rule="I2"):
                     continue
                 v = kws[fld]
                 ok = reads_trans(v)
+                if not ok and fld == "hfs" and isinstance(v, ast.Constant) and v.value is None:
+                    ok = True          # default (trivial) fusion records for every leg of a rebuilt structure
                 # fresh-leg constants only (S of svd: two new legs)
                 if not ok:
                     names = {n.id for n in ast.walk(v) if isinstance(n, ast.Name) and isinstance(n.ctx, ast.Load)}
